@@ -27,6 +27,28 @@
 //!   db <type> <i> <value> <flags> <time>     Database::get on the outstation after quiescence
 //!   seen <type> <i> <value> <flags> <time>   last value the ReadHandler received (or `seen <type> <i> never`)
 //!   panic <text>                             a panic anywhere in the process during this script
+//!
+//! Second mode, engine `accept` of property C01 (acceptance liveness of the real TCP servers):
+//!
+//! script:  S <id> accept role=master|outstation linkid=0|1 maxtasks=<n> idto=<ms> discard=0|1 workers=<n>
+//!   role=master      a master in TCP SERVER mode (spawn_master_tcp_server); linkid=1: ConnectionHandler::accept
+//!                    answers GetLinkIdentity (LinkIdConfig max_tasks = maxtasks, timeout = idto ms), the session is
+//!                    configured from the identified addresses; linkid=0: every connection is accepted at once
+//!   role=outstation  an outstation (address 1024, master 1, three binary inputs, no unsolicited) behind a TCP server
+//!   ops:  bad <kind> <hex|-> <hold ms> fin|rst   a peer connects, sends these octets, keeps the connection open for
+//!                                                `hold` ms (in the background: the script goes on) and closes it
+//!                                                (fin = orderly shutdown, rst = SO_LINGER 0); <kind> is a label
+//!         good <hex> <frames> <limit ms>         a peer connects, sends these octets (a well-formed request) and must
+//!                                                receive <frames> complete link frames within <limit> ms
+//!         wait <ms>
+//! trace:  op <n>                                 as above
+//!         bad <kind> sent|write-failed <octets> / bad <kind> connect-failed
+//!         good served <frame>,<frame>...         the frames received (hex)
+//!         good not-served connect-failed|write-failed|timeout|closed|bad-start|bad-length <received octets|->
+//!         started <source> <destination> | started plain    ConnectionHandler::start_with_link_id / start
+//!         rejected <source> <destination>        accept_link_id: the destination is not a legal master address
+//!         oconn connected|disconnected           (role=outstation) as above
+//!         panic <text>
 use std::collections::HashMap;
 use std::net::{IpAddr, Ipv4Addr, SocketAddr};
 use std::sync::atomic::{AtomicI64, AtomicU64, AtomicUsize, Ordering};
@@ -1077,6 +1099,262 @@ async fn run_script(s: &Script, trace: Trace) {
     drop(outstation);
 }
 
+// ------------------------------------------------------------------------------------------------
+// engine `accept` (property C01): hostile and well-formed peers against the connection-accepting code
+
+struct NoRead;
+impl ReadHandler for NoRead {}
+
+/// the channels the server handed out: a dropped MasterChannel shuts its session down
+type Kept = Arc<Mutex<Vec<(MasterChannel, Option<AssociationHandle>)>>>;
+
+struct AcceptHandler {
+    trace: Trace,
+    linkid: bool,
+    lem: LinkErrorMode,
+    kept: Kept,
+}
+
+impl AcceptHandler {
+    fn channel_config(&self, master: EndpointAddress) -> AcceptConfig {
+        let mut config = MasterChannelConfig::new(master);
+        config.decode_level = decode_level();
+        AcceptConfig { error_mode: self.lem, config }
+    }
+
+    /// association for the peer's address (start-up integrity poll as the first request), then enable
+    async fn begin(&mut self, mut channel: MasterChannel, source: u16) {
+        let mut assoc = None;
+        if let Ok(addr) = EndpointAddress::try_new(source) {
+            let mut acfg = AssociationConfig::new(
+                EventClasses::none(),
+                EventClasses::none(),
+                Classes::all(),
+                EventClasses::none(),
+            );
+            acfg.response_timeout = Timeout::from_millis(1000).unwrap();
+            acfg.keep_alive_timeout = None;
+            acfg.auto_time_sync = None;
+            assoc = channel
+                .add_association(addr, acfg, Box::new(NoRead), Box::new(AssocHandler), Box::new(AssocInfo))
+                .await
+                .ok();
+        }
+        let _ = channel.enable().await;
+        self.kept.lock().unwrap_or_else(|e| e.into_inner()).push((channel, assoc));
+    }
+}
+
+impl ConnectionHandler for AcceptHandler {
+    async fn accept(&mut self, _: SocketAddr) -> Result<AcceptAction, Reject> {
+        if self.linkid {
+            Ok(AcceptAction::GetLinkIdentity)
+        } else {
+            Ok(AcceptAction::Accept(self.channel_config(EndpointAddress::try_new(1).unwrap())))
+        }
+    }
+
+    async fn start(&mut self, channel: MasterChannel, _: SocketAddr) {
+        self.trace.log("started plain".to_string());
+        self.begin(channel, 1024).await;
+    }
+
+    async fn accept_link_id(&mut self, _: SocketAddr, source: u16, destination: u16) -> Result<AcceptConfig, Reject> {
+        match EndpointAddress::try_new(destination) {
+            Ok(master) => Ok(self.channel_config(master)),
+            Err(_) => {
+                self.trace.log(format!("rejected {} {}", source, destination));
+                Err(Reject)
+            }
+        }
+    }
+
+    async fn start_with_link_id(&mut self, channel: MasterChannel, _: SocketAddr, source: u16, destination: u16) {
+        self.trace.log(format!("started {} {}", source, destination));
+        self.begin(channel, source).await;
+    }
+}
+
+async fn peer_close(mut s: TcpStream, rst: bool) {
+    if rst {
+        let _ = s.set_linger(Some(Duration::ZERO));
+    } else {
+        let _ = s.shutdown().await;
+    }
+    drop(s);
+}
+
+/// octets of the link frame whose LENGTH octet is `len`: header block + user data with a CRC per 16 octets
+fn link_frame_size(len: u8) -> Option<usize> {
+    if len < 5 {
+        return None;
+    }
+    let n = len as usize - 5;
+    Some(10 + n + 2 * ((n + 15) / 16))
+}
+
+/// a well-formed peer: connect, send the request, collect `nframes` link frames before the deadline
+async fn good_peer(addr: SocketAddr, request: &[u8], nframes: usize, limit: Duration) -> String {
+    let deadline = tokio::time::Instant::now() + limit;
+    let mut s = match tokio::time::timeout_at(deadline, TcpStream::connect(addr)).await {
+        Ok(Ok(s)) => s,
+        _ => return "good not-served connect-failed -".to_string(),
+    };
+    let _ = s.set_nodelay(true);
+    if s.write_all(request).await.is_err() {
+        return "good not-served write-failed -".to_string();
+    }
+    let mut buf: Vec<u8> = Vec::new();
+    let mut frames: Vec<Vec<u8>> = Vec::new();
+    let received = |frames: &Vec<Vec<u8>>, buf: &Vec<u8>| {
+        let all: Vec<u8> = frames.iter().flatten().chain(buf.iter()).copied().collect();
+        hex(&all)
+    };
+    let why = loop {
+        loop {
+            if (!buf.is_empty() && buf[0] != 0x05) || (buf.len() >= 2 && buf[1] != 0x64) {
+                return format!("good not-served bad-start {}", received(&frames, &buf));
+            }
+            if buf.len() < 10 {
+                break;
+            }
+            match link_frame_size(buf[2]) {
+                None => return format!("good not-served bad-length {}", received(&frames, &buf)),
+                Some(n) if buf.len() >= n => frames.push(buf.drain(..n).collect()),
+                Some(_) => break,
+            }
+        }
+        if frames.len() >= nframes {
+            let _ = s.shutdown().await;
+            let list: Vec<String> = frames.iter().map(|f| hex(f)).collect();
+            return format!("good served {}", list.join(","));
+        }
+        let mut chunk = [0u8; 1024];
+        match tokio::time::timeout_at(deadline, s.read(&mut chunk)).await {
+            Err(_) => break "timeout",
+            Ok(Ok(0)) | Ok(Err(_)) => break "closed",
+            Ok(Ok(n)) => buf.extend_from_slice(&chunk[..n]),
+        }
+    };
+    format!("good not-served {} {}", why, received(&frames, &buf))
+}
+
+async fn run_accept_script(s: &Script, trace: Trace) {
+    let lem = if s.int("discard", 0) != 0 { LinkErrorMode::Discard } else { LinkErrorMode::Close };
+    let role_master = s.cfg.get("role").map(|r| r != "outstation").unwrap_or(true);
+    let kept: Kept = Arc::new(Mutex::new(Vec::new()));
+
+    // ---- the server under test ------------------------------------------------------------------
+    let mut _outstation = None;
+    let server_handle = if role_master {
+        let config = LinkIdConfig::new()
+            .max_tasks(std::num::NonZeroUsize::new(s.int("maxtasks", 16).max(1) as usize).unwrap())
+            .timeout(Timeout::from_millis(s.int("idto", 300)).unwrap_or_else(|_| Timeout::from_secs(5).unwrap()));
+        let handler = AcceptHandler {
+            trace: trace.clone(),
+            linkid: s.int("linkid", 1) != 0,
+            lem,
+            kept: kept.clone(),
+        };
+        match spawn_master_tcp_server(SocketAddr::new(LOCALHOST, 0), config, handler).await {
+            Ok(h) => h,
+            Err(e) => {
+                trace.log(format!("setup-error master server {}", e));
+                return;
+            }
+        }
+    } else {
+        let mut ocfg = OutstationConfig::new(
+            EndpointAddress::try_new(1024).unwrap(),
+            EndpointAddress::try_new(1).unwrap(),
+            EventBufferConfig::all_types(3),
+        );
+        ocfg.features.unsolicited = Feature::Disabled;
+        ocfg.keep_alive_timeout = None;
+        ocfg.decode_level = decode_level();
+        let mut server = Server::new_tcp_server(lem, SocketAddr::new(LOCALHOST, 0));
+        let outstation = match server.add_outstation(
+            ocfg,
+            Box::new(OutApp(trace.clone())),
+            Box::new(OutInfo(trace.clone())),
+            Box::new(Controls(trace.clone())),
+            Box::new(OutConnListener(trace.clone())),
+            AddressFilter::Any,
+        ) {
+            Ok(o) => o,
+            Err(e) => {
+                trace.log(format!("setup-error add_outstation {:?}", e));
+                return;
+            }
+        };
+        outstation.transaction(|db| {
+            for i in 0..3 {
+                add_point(db, "bi", i, Some(EventClass::Class1));
+            }
+        });
+        _outstation = Some(outstation);
+        match server.bind().await {
+            Ok(h) => h,
+            Err(e) => {
+                trace.log(format!("setup-error bind {}", e));
+                return;
+            }
+        }
+    };
+    let addr = match server_handle.local_addr() {
+        Some(a) => SocketAddr::new(LOCALHOST, a.port()),
+        None => {
+            trace.log("setup-error no local address".to_string());
+            return;
+        }
+    };
+
+    // ---- ops ------------------------------------------------------------------------------------
+    for (n, op) in s.ops.iter().enumerate() {
+        trace.log(format!("op {}", n));
+        match op[0].as_str() {
+            "bad" if op.len() >= 5 => {
+                let kind = &op[1];
+                let data = unhex(&op[2]);
+                let hold: u64 = op[3].parse().unwrap_or(0);
+                let rst = op[4] == "rst";
+                match tokio::time::timeout(Duration::from_secs(3), TcpStream::connect(addr)).await {
+                    Ok(Ok(mut peer)) => {
+                        let _ = peer.set_nodelay(true);
+                        let sent = data.is_empty() || peer.write_all(&data).await.is_ok();
+                        if hold == 0 {
+                            peer_close(peer, rst).await;
+                        } else {
+                            tokio::spawn(async move {
+                                tokio::time::sleep(Duration::from_millis(hold)).await;
+                                peer_close(peer, rst).await;
+                            });
+                        }
+                        trace.log(format!("bad {} {} {}", kind, if sent { "sent" } else { "write-failed" }, data.len()));
+                    }
+                    _ => trace.log(format!("bad {} connect-failed", kind)),
+                }
+            }
+            "good" if op.len() >= 4 => {
+                let request = unhex(&op[1]);
+                let nframes: usize = op[2].parse().unwrap_or(1);
+                let limit = Duration::from_millis(op[3].parse().unwrap_or(3000));
+                let outcome = good_peer(addr, &request, nframes, limit).await;
+                trace.log(outcome);
+            }
+            "wait" if op.len() >= 2 => {
+                tokio::time::sleep(Duration::from_millis(op[1].parse().unwrap_or(0))).await
+            }
+            _ => trace.log("bad-op".to_string()),
+        }
+    }
+
+    // ---- teardown -------------------------------------------------------------------------------
+    kept.lock().unwrap_or_else(|e| e.into_inner()).clear();
+    drop(server_handle);
+    drop(_outstation);
+}
+
 fn main() {
     let path = match std::env::args().nth(1) {
         Some(p) => p,
@@ -1103,7 +1381,8 @@ fn main() {
     let stdout = std::io::stdout();
     for s in parse_scripts(&text) {
         let trace = Trace::new();
-        if s.cfg.get("engine").map(|e| e.as_str()) != Some("pair") {
+        let engine = s.cfg.get("engine").cloned().unwrap_or_default();
+        if engine != "pair" && engine != "accept" {
             let mut o = stdout.lock();
             let _ = writeln!(o, "T {}\nunknown-engine\nE", s.id);
             continue;
@@ -1116,7 +1395,11 @@ fn main() {
         let hard_limit = Duration::from_millis(s.int("hardlimit", 60_000));
         let t2 = trace.clone();
         let finished = rt.block_on(async {
-            tokio::time::timeout(hard_limit, run_script(&s, t2)).await.is_ok()
+            if engine == "accept" {
+                tokio::time::timeout(hard_limit, run_accept_script(&s, t2)).await.is_ok()
+            } else {
+                tokio::time::timeout(hard_limit, run_script(&s, t2)).await.is_ok()
+            }
         });
         // kills every task of the script: master, outstation, server, proxy; closes every socket
         rt.shutdown_timeout(Duration::from_millis(500));
